@@ -38,7 +38,7 @@ theorem media_in_rule_bubbles (q : Quirks) (ops : Ops σ) (c : SelCtx σ) (hc : 
   have hc' : (!c.excluded || q.atRootKeepsRule) = true := by
     unfold Plain at hc; cases h1 : c.excluded <;> cases h2 : q.atRootKeepsRule <;> simp_all
   simp only [emitItem, startMedia, hc', copySel, Option.map, if_true]
-  rw [emitBody_decls_at q ops c l hc]
+  rw [emitBody_decls_at q ops _ l (by simp)]
   have hit : atResult q (.media a) (some (s, [] ++ propsOf l)) [] = .media a (commitItems s (propsOf l)) := by
     cases hq : q.atRuleHoists <;> simp [atResult, AtKind.toItem, hq]
   have hd := deliver_ruleStack q ops ((s, cur) :: rs) root [.media a (commitItems s (propsOf l))]
@@ -57,8 +57,7 @@ theorem atrule_in_rule_bubbles (q : Quirks) (ops : Ops σ) (c : SelCtx σ) (hc :
               lost := lost } := by
   have hc' : (!c.excluded || q.atRootKeepsRule) = true := by
     unfold Plain at hc; cases h1 : c.excluded <;> cases h2 : q.atRootKeepsRule <;> simp_all
-  have hc2 : ((c.excluded && ops.isSupports n) && !q.atRootKeepsRule) = false := by
-    unfold Plain at hc; cases h1 : c.excluded <;> cases h2 : q.atRootKeepsRule <;> simp_all
+  have hc2 : ((false : Bool) && !q.atRootKeepsRule) = false := by simp
   simp only [emitItem, startAtRule, hc', hflat, hkf, copySel, Option.map, Bool.not_true, Bool.or_false,
     Bool.false_eq_true, if_false]
   rw [emitBody_decls_at q ops _ l hc2]
@@ -226,15 +225,15 @@ theorem bubble_preserves_order (q : Quirks) (hh : q.atRuleHoists = false) (hm : 
   refine ⟨?_, hnil⟩
   simpa [view, hnil, viewStack, skel, flatItems] using hv
 
-/-- `bubble_preserves_order_now` — the same for the CODE AS IT IS NOW (after 242f60b the
+/-- `bubble_preserves_order_afterRound1` — the same for the code after the first fix round (after 242f60b the
 at-rule frames keep source order; `Drop` still only prints a failed push): whenever the run
 lost nothing (`lost = 0`, i.e. no at-rule was dropped inside a nested-property block), the
 flattened output equals the evaluation log.  `_partial`: the hypothesis `lost = 0` excludes
 exactly the open finding of C21; media stays nested (open finding `mediaInMediaNested`). -/
-theorem bubble_preserves_order_now (ops : Ops σ) (p : List (Core σ)) (st : St σ)
-    (h : emitTop Quirks.now ops p = .ok st) (hl : st.lost = 0) :
-    flatItems [] st.root = logBody Quirks.now ops {} p [] ∧ st.stack = [] := by
-  obtain ⟨_, hg⟩ := emitBody_good Quirks.now rfl rfl ops {} p {} st h
+theorem bubble_preserves_order_afterRound1 (ops : Ops σ) (p : List (Core σ)) (st : St σ)
+    (h : emitTop Quirks.afterRound1 ops p = .ok st) (hl : st.lost = 0) :
+    flatItems [] st.root = logBody Quirks.afterRound1 ops {} p [] ∧ st.stack = [] := by
+  obtain ⟨_, hg⟩ := emitBody_good Quirks.afterRound1 rfl rfl ops {} p {} st h
   obtain ⟨hv, hk⟩ := hg (by simpa using hl)
   have hnil : st.stack = [] := by
     cases hst : st.stack with
@@ -244,10 +243,23 @@ theorem bubble_preserves_order_now (ops : Ops σ) (p : List (Core σ)) (st : St 
   simpa [view, hnil, viewStack, skel, flatItems] using hv
 
 /-- the hypothesis is met by real programs (and the order is the source order) -/
-example : (match emitTop Quirks.now natOps
+example : (match emitTop Quirks.afterRound1 natOps
       [.rule 2 [.decl 9 9, .media 3 [.decl 4 5, .rule 6 [.decl 7 8], .decl 1 1]]] with
     | .ok st => (st.lost, (flatItems [] st.root).map (fun e => (e.sel, e.item))) | .error _ => (1, []))
     = (0, [(some 2, .prop 9 9), (some 2, .prop 4 5), (some 2006, .prop 7 8), (some 2, .prop 1 1)]) := by rfl
+
+/-- `bubble_preserves_order_now` — THE CODE AS IT IS NOW (after 242f60b, f162538, 34ff818;
+`Quirks.now`: only `@media` in `@media` still deviates): for every program, a successful run's
+flattened output equals the evaluation log — no side hypothesis left. -/
+theorem bubble_preserves_order_now (ops : Ops σ) (p : List (Core σ)) (st : St σ)
+    (h : emitTop Quirks.now ops p = .ok st) :
+    flatItems [] st.root = logBody Quirks.now ops {} p [] ∧ st.stack = [] :=
+  bubble_preserves_order Quirks.now rfl rfl rfl ops p st h
+
+/-- and a declaration directly in a selector-less `@at-root` is now refused, as specified -/
+theorem atroot_decl_now_rejected (ops : Ops σ) (c : SelCtx σ) (n v : σ) (rest : List (Core σ)) (st : St σ) :
+    emitItem Quirks.now ops c (.atroot none (.decl n v :: rest)) st = .error .declInAtRoot := by
+  simp [emitItem, emitBody, Quirks.now]
 
 /-- the general form, from any state with any open frames (`Dest/Refine.lean`) -/
 theorem emit_refines_log (q : Quirks) (hh : q.atRuleHoists = false) (hm : q.mediaInMediaNested = true)
